@@ -92,17 +92,28 @@ def analyse_decorate(ctx, repo, prop_rules):
 
     if "identifiers" in prop_rules:
         ctx.clause = "1-identifiers"
-        cfg = make_cfg(repo, fn)
-        from ..astutil import field_copy_verdict
+        # on terms (bsa.sym): on every returning path the last store to answer.header.<f> is request.header.<f>
+        from .. import sym
+        from ..astutil import strip_doc
         fields = ("application_id", "hop_by_hop", "end_to_end")
+        AT, RT = sym.S(A), sym.S(R)
+        try:
+            paths_ = [p_ for p_ in sym.Interp().run(strip_doc(fn.body), sym.PathState({A: AT, R: RT}, [], [])) if p_.term in ("return", "fall")]
+        except sym.TooMany:
+            paths_ = []
+        if not paths_:
+            ctx.undecided("R-MUSTDEF/identifiers", construct, where, "no returning path evaluated", key="paths")
         for f in fields:
-            others = [f"{R}.header.{g}" for g in fields if g != f] + [f"{A}.header.{g}" for g in fields]
-            v, detail = field_copy_verdict(cfg, f"{A}.header.{f}", f"{R}.header.{f}", others)
-            if v == "UNDECIDED":
-                ctx.undecided("R-MUSTDEF/identifiers", construct, where, detail, key=f"id:{f}")
-            else:
-                ctx.decide(v == "HOLDS", "R-MUSTDEF/identifiers", construct, where, detail,
-                           f"answer.header.{f} is not the request's {f}: {detail}", key=f"id:{f}")
+            bad = set()
+            for p_ in paths_:
+                st_ = [e for e in p_.effects if e[0] == "storeattr" and e[1] == ("attr", AT, "header") and e[2] == f]
+                if not st_:
+                    bad.add(f"`{A}.header.{f}` is never assigned")
+                elif st_[-1][3] != ("attr", ("attr", RT, "header"), f):
+                    bad.add(f"`{A}.header.{f}` is assigned `{sym.show(st_[-1][3])}`")
+            if paths_:
+                ctx.decide(not bad, "R-MUSTDEF/identifiers", construct, where, f"answer.header.{f} = request.header.{f} on every path",
+                           f"answer.header.{f} is not the request's {f}: {'; '.join(sorted(bad))}", key=f"id:{f}")
         rets = [ast.unparse(n.value) for n in walk_no_nested(fn) if isinstance(n, ast.Return) and n.value is not None]
         ctx.decide(rets and all(r == A for r in rets), "R-MUSTDEF/identifiers", construct, where, "returns the decorated answer",
                    f"returns {rets}", key="return", nontrivial=False)
